@@ -4,6 +4,7 @@ CONSTANTS WholeRules <- Whole
           Cap = 2
           KeyHasTokens = TRUE
           MaxOps = 6
+          Peeking <- NoRules
 INIT LGInit
 NEXT LGNext
 INVARIANTS CacheUnobservable Decomposes
